@@ -29,11 +29,17 @@ Proof. intros. cbn. destruct (Nat.eqb c a); reflexivity. Qed.
 Lemma sent_to_single : forall b t e, sent_to b [(t, e)] = if Nat.eqb t b then [e] else [].
 Proof. intros. unfold sent_to. cbn. destruct (Nat.eqb t b); reflexivity. Qed.
 
+(* the per-context states after context c has forwarded e (head of its engine output, rest r) into t's inbox *)
+Definition next_fwd_cs (s : state) (c t : nat) (e : event) (r : list event) (f' : nat -> cstate) : Prop :=
+  f' = (let st := cs s c in
+        let sender := {| inbox := inbox st; outq := r; consumed := consumed st; g_recv := g_recv st; g_sent := g_sent st ++ [(t, e)] |} in
+        let f := upd (cs s) c sender in upd f t (push_inbox (f t) (MEv (Some c) e))).
+
 (* ---- one step preserves exact delivery when forwarding blocks ---- *)
 Lemma next_delivery_exact : forall cfg s l s',
   mode cfg = Block -> delivery_exact s -> next cfg s l = Some s' -> delivery_exact s'.
 Proof.
-  intros cfg s l s' Hm Inv Hn. destruct l as [e | c | c | | c | ]; cbn [next] in Hn.
+  intros cfg s l s' Hm Inv Hn. destruct l as [e | c | c | c | | c | ]; cbn [next] in Hn.
   - (* Ingress *)
     destruct (route (prog cfg) (e_ty e)) as [t|]; [|discriminate].
     destruct (Nat.ltb t (n_ctx cfg) && room cfg s t); inv Hn.
@@ -62,13 +68,13 @@ Proof.
   - (* Route *)
     destruct (negb (Nat.ltb c (n_ctx cfg))); [discriminate|].
     destruct (outq (cs s c)) as [|e r] eqn:Eo; [discriminate|].
-    match type of Hn with (match ?T with _ => _ end) = _ => destruct T as [t|] eqn:Et end.
+    destruct (target_of cfg c e) as [t|] eqn:Et.
     + assert (Htc : t <> c).
-      { destruct (route (prog cfg) (e_ty e)) as [t0|]; [|discriminate].
+      { unfold target_of in Et. destruct (route (prog cfg) (e_ty e)) as [t0|]; [|discriminate].
         destruct (Nat.ltb t0 (n_ctx cfg) && negb (Nat.eqb t0 c)) eqn:E2; [|discriminate]. inv Et.
         apply andb_prop in E2. destruct E2 as [_ E2]. apply negb_true_iff in E2. apply Nat.eqb_neq in E2. exact E2. }
-      destruct (room cfg s t).
-      * inv Hn. intros a b Hab. specialize (Inv a b Hab). cbn [cs].
+      assert (Hfwd : forall s1, next_fwd_cs s c t e r (cs s1) -> delivery_exact s1).
+      { intros s1 Hcs a b Hab. specialize (Inv a b Hab). unfold next_fwd_cs in Hcs. rewrite Hcs.
         destruct (Nat.eq_dec b t) as [->|Hb].
         -- rewrite upd_same. rewrite (upd_other _ _ _ _ t Htc). cbn [inbox g_recv push_inbox].
            rewrite inflight_app, inflight_single_ev.
@@ -87,11 +93,19 @@ Proof.
                  destruct (Nat.eqb t b) eqn:E; [apply Nat.eqb_eq in E; subst; contradiction|]. rewrite app_nil_r.
                  rewrite (upd_other _ _ _ _ b (not_eq_sym Hab)). exact Inv.
               ** rewrite (upd_other _ _ _ _ a Ha).
-                 destruct (Nat.eq_dec b c) as [->|Hbc]; [rewrite upd_same | rewrite (upd_other _ _ _ _ b Hbc)]; exact Inv.
-      * rewrite Hm in Hn. discriminate.
+                 destruct (Nat.eq_dec b c) as [->|Hbc]; [rewrite upd_same | rewrite (upd_other _ _ _ _ b Hbc)]; exact Inv. }
+      destruct (memb c (rs s t)); [inv Hn; apply Hfwd; reflexivity|].
+      destruct (memb c (wq s t)); [discriminate|].
+      destruct (room cfg s t); [inv Hn; apply Hfwd; reflexivity|].
+      rewrite Hm in Hn. discriminate.
     + inv Hn. intros a b Hab. specialize (Inv a b Hab). cbn [cs].
       destruct (Nat.eq_dec b c) as [->|Hb]; [rewrite upd_same | rewrite (upd_other _ _ _ _ b Hb)];
         (destruct (Nat.eq_dec a c) as [->|Ha]; [rewrite upd_same | rewrite (upd_other _ _ _ _ a Ha)]); cbn [inbox g_recv g_sent]; exact Inv.
+  - (* Wait *)
+    destruct (negb (Nat.ltb c (n_ctx cfg))); [discriminate|].
+    destruct (mode cfg); [discriminate|]. destruct (outq (cs s c)) as [|e r]; [discriminate|].
+    destruct (target_of cfg c e) as [t|]; [|discriminate].
+    destruct (memb c (rs s t) || memb c (wq s t) || room cfg s t); inv Hn. exact Inv.
   - (* Init *)
     destruct (pending s); inv Hn. exact Inv.
   - (* BSend *)
@@ -210,7 +224,7 @@ Qed.
 
 Lemma next_outq_wf : forall cfg s l s', outq_wf cfg s -> next cfg s l = Some s' -> outq_wf cfg s'.
 Proof.
-  intros cfg s l s' W Hn. destruct l as [e | c | c | | c | ]; cbn [next] in Hn.
+  intros cfg s l s' W Hn. destruct l as [e | c | c | c | | c | ]; cbn [next] in Hn.
   - destruct (route (prog cfg) (e_ty e)) as [t|]; [|discriminate].
     destruct (Nat.ltb t (n_ctx cfg) && room cfg s t); inv Hn.
     intros c x. cbn [cs set_cs]. unfold upd. destruct (Nat.eqb c t) eqn:E; [apply Nat.eqb_eq in E; subst; cbn [outq push_inbox]|]; apply W.
@@ -224,13 +238,21 @@ Proof.
     destruct (outq (cs s c)) as [|e r] eqn:Eo; [discriminate|].
     assert (Wr : forall x, In x r -> exists st, In st (prog cfg) /\ s_ctx st = c /\ s_name st = e_ty x).
     { intros x Hx. apply (W c x). rewrite Eo. right. exact Hx. }
-    match type of Hn with (match ?T with _ => _ end) = _ => destruct T as [t|] eqn:Et end.
-    + destruct (room cfg s t); [|destruct (mode cfg); [|discriminate]]; inv Hn; intros c0 x; cbn [cs]; unfold upd.
-      * destruct (Nat.eqb c0 t) eqn:E1.
-        -- apply Nat.eqb_eq in E1. subst. cbn [outq push_inbox]. destruct (Nat.eqb t c) eqn:E2; [apply Nat.eqb_eq in E2; subst; cbn [outq]; apply Wr | apply W].
-        -- destruct (Nat.eqb c0 c) eqn:E2; [apply Nat.eqb_eq in E2; subst; cbn [outq]; apply Wr | apply W].
-      * destruct (Nat.eqb c0 c) eqn:E2; [apply Nat.eqb_eq in E2; subst; cbn [outq]; apply Wr | apply W].
+    destruct (target_of cfg c e) as [t|] eqn:Et.
+    + assert (Hacc : forall s1, next_fwd_cs s c t e r (cs s1) -> outq_wf cfg s1).
+      { intros s1 Hcs c0 x. unfold next_fwd_cs in Hcs. rewrite Hcs. unfold upd. destruct (Nat.eqb c0 t) eqn:E1.
+        - apply Nat.eqb_eq in E1. subst. cbn [outq push_inbox]. destruct (Nat.eqb t c) eqn:E2; [apply Nat.eqb_eq in E2; subst; cbn [outq]; apply Wr | apply W].
+        - destruct (Nat.eqb c0 c) eqn:E2; [apply Nat.eqb_eq in E2; subst; cbn [outq]; apply Wr | apply W]. }
+      destruct (memb c (rs s t)); [inv Hn; apply Hacc; reflexivity|].
+      destruct (memb c (wq s t)); [discriminate|].
+      destruct (room cfg s t); [inv Hn; apply Hacc; reflexivity|].
+      destruct (mode cfg); [|discriminate]. inv Hn. intros c0 x. cbn [cs]. unfold upd.
+      destruct (Nat.eqb c0 c) eqn:E2; [apply Nat.eqb_eq in E2; subst; cbn [outq]; apply Wr | apply W].
     + inv Hn. intros c0 x. cbn [cs]. unfold upd. destruct (Nat.eqb c0 c) eqn:E2; [apply Nat.eqb_eq in E2; subst; cbn [outq]; apply Wr | apply W].
+  - destruct (negb (Nat.ltb c (n_ctx cfg))); [discriminate|].
+    destruct (mode cfg); [discriminate|]. destruct (outq (cs s c)) as [|e r]; [discriminate|].
+    destruct (target_of cfg c e) as [t|]; [|discriminate].
+    destruct (memb c (rs s t) || memb c (wq s t) || room cfg s t); inv Hn. exact W.
   - destruct (pending s); inv Hn. exact W.
   - destruct (pending s) as [p|]; [|discriminate].
     destruct (existsb (Nat.eqb c) (p_tosend p)); inv Hn.
@@ -252,30 +274,3 @@ Qed.
 Lemma init_outq_wf : forall cfg, outq_wf cfg init.
 Proof. intros cfg c e []. Qed.
 
-Definition has_work (s : state) (c : nat) : Prop := inbox (cs s c) <> [] \/ outq (cs s c) <> [].
-Definition can_step (cfg : config) (s : state) (c : nat) : Prop :=
-  (exists s', next cfg s (Recv c) = Some s') \/ (exists s', next cfg s (Route c) = Some s').
-
-(* whenever some context has something to do, some context can take a step: by descending induction on the index *)
-Lemma progress_from : forall cfg s, 1 <= cap cfg -> ranked cfg -> outq_wf cfg s ->
-  forall k c, n_ctx cfg - c <= k -> c < n_ctx cfg -> has_work s c -> exists c', c' < n_ctx cfg /\ can_step cfg s c'.
-Proof.
-  intros cfg s Hcap Hrk W. induction k as [|k IH]; intros c Hk Hc Hw; [lia|].
-  assert (Hlt : Nat.ltb c (n_ctx cfg) = true) by (apply Nat.ltb_lt; exact Hc).
-  destruct (outq (cs s c)) as [|e r] eqn:Eo.
-  - (* nothing to forward: take the next inbox message *)
-    destruct Hw as [Hw|Hw]; [|contradiction].
-    exists c. split; [exact Hc|]. left. cbn [next]. rewrite Hlt. cbn [negb]. rewrite Eo.
-    destruct (inbox (cs s c)) as [|[src e|id] r]; [contradiction| |]; eexists; reflexivity.
-  - destruct (next cfg s (Route c)) as [s'|] eqn:En; [exists c; split; [exact Hc|]; right; exists s'; exact En|].
-    (* the forward is blocked: its target is a larger context with a full (non-empty) inbox *)
-    cbn [next] in En. rewrite Hlt in En. cbn [negb] in En. rewrite Eo in En.
-    destruct (route (prog cfg) (e_ty e)) as [t|] eqn:Er; [|discriminate].
-    destruct (Nat.ltb t (n_ctx cfg) && negb (Nat.eqb t c)) eqn:E2; [|discriminate].
-    apply andb_prop in E2. destruct E2 as [Ht Htc]. apply Nat.ltb_lt in Ht. apply negb_true_iff in Htc. apply Nat.eqb_neq in Htc.
-    destruct (room cfg s t) eqn:Erm; [discriminate|].
-    destruct (W c e) as [st [Hin [Hctx Hname]]]; [rewrite Eo; left; reflexivity|].
-    assert (c < t). { subst c. apply (Hrk st t Hin); [rewrite Hname; exact Er | exact Htc]. }
-    apply (IH t); [lia | exact Ht |]. left. unfold room in Erm. apply Nat.ltb_ge in Erm.
-    destruct (inbox (cs s t)); [cbn in Erm; lia | discriminate].
-Qed.
